@@ -14,6 +14,7 @@ pub enum Case {
     CfgFuzz(crate::cfgfuzz::CCase),
     Migr(crate::migr::MCase),
     Hooks(crate::hooks::HCase),
+    Arith(crate::arith::ACase),
 }
 
 #[derive(Clone, Debug, Default)]
@@ -163,6 +164,7 @@ pub fn eval_case(case: &Case, prop: &str, known: &Known) -> Eval {
         Case::CfgFuzz(c) => crate::cfgfuzz::eval(c),
         Case::Migr(c) => crate::migr::eval(c),
         Case::Hooks(c) => crate::hooks::eval(c),
+        Case::Arith(c) => crate::arith::eval(c),
     }
 }
 
